@@ -6,12 +6,43 @@ THEOREMS = ['C19_subscribe_acked', 'C19_unsubscribe_acked', 'C19_noop_still_acke
 CHECKERS = ['C19', 'C06', 'C03']
 
 
+def directed(rng, tier):
+    """control frames sent BEFORE the handshake (a legal history: the manager applies and acknowledges them, addressed
+    to module id 0; pyrtma's own web_manager produces it), then the handshake, then more control frames; with zero,
+    one and two loggers connected"""
+    from .. import mgr_common as C
+    out = []
+    for nlog in (1, 2):
+        for v2 in (True, False):
+            for lvl in (60, 40):
+                hs = C.History(loglevel=lvl, tag="control-before-handshake")
+                for _ in range(4):
+                    hs.round([], [], 0, accept=True)
+                w = [1, 2, 3, 4]
+                hs.round([(1, hs.connect_v2(logger=1, mod_id=30))], w, 0)
+                hs.round([(1, hs.sub("sub", C.ALL))], w, 0)
+                if nlog == 2:
+                    hs.round([(4, hs.connect_v2(logger=1, mod_id=33))], w, 0)
+                    hs.round([(4, hs.sub("sub", 100))], w, 0)
+                for kind, t in (("sub", 100), ("pause", 100), ("resume", 100), ("unsub", 100), ("sub", C.ALL), ("unsub", C.ALL), ("sub", 101)):
+                    hs.round([(2, hs.sub(kind, t))], w, 1)
+                hs.round([(3, hs.connect_v1(src_mod=32))], w, 2)
+                hs.round([(3, hs.publish(101, b"early", src_mod=32))], w, 2)
+                hs.round([(2, hs.connect_v2(mod_id=31) if v2 else hs.connect_v1(src_mod=31))], w, 3)
+                hs.round([(2, hs.sub("sub", 102, src_mod=31))], w, 3)
+                hs.round([(2, hs.sub("unsub", 101, src_mod=31))], w, 3)
+                hs.round([(3, hs.publish(102, b"late", src_mod=32))], w, 4)
+                out.append(hs)
+    return out
+
+
 def run(chk: Check):
     mgr_check.run_property(
         chk, "C19", "Props.C19", THEOREMS,
         model_profiles={'acks': 300, 'ids': 80},
         oracle_flavors={'acks': 320, 'ids': 120},
         checkers=CHECKERS,
+        extra_histories=directed,
         assumptions=['the stream-level statement (ACK subsequence of every connection = expected list, in order) is decided by the correspondence and the spec oracle'])
 
 
